@@ -452,6 +452,8 @@ class PEmitter:
         segs = e[1]
         if len(segs) == 2:
             ty, name = segs
+            if ty == "HalfPel" and name in getattr(self, "halfpel_consts", {}):
+                return k(zlit(self.halfpel_consts[name]), "HalfPel", env)
             if ty in FLAGS:
                 return k(self.flag_const(ty, name), ty, env)
             if ty in ENUMS and name in ENUMS[ty]:
@@ -519,6 +521,9 @@ class PEmitter:
 
     def binop(self, op, a, ta, b, tb, env, k):
         ta, tb = resolve(ta), resolve(tb)
+        if ta == "HalfPel" and tb == "HalfPel" and op == "+":
+            # impl Add for HalfPel: saturating addition, translated and bridged as a kernel (k_halfpel_add = hadd)
+            return k("(hadd %s %s)" % (a, b), "HalfPel", env)
         if ta == "f64" and tb == "f64" and op == "/":
             return k("(ddiv %s %s)" % (a, b), "f64", env)
         if op in ("==", "!=", "<", "<=", ">", ">="):
@@ -682,6 +687,14 @@ class PEmitter:
             return self.expr(args[0], env, lambda a, t, env: k("(Some %s)" % a, ("opt", t), env), w[1] if isinstance(w, tuple) and w[0] == "opt" else None)
         if f[0] == "var" and f[1] in ("Ok", "Err"):
             raise Untranslatable("Result value outside return position")
+        if f[0] == "var" and self.pure and f[1] in self.known and self.known[f[1]][0] != "static":
+            cname, _, rty = self.known[f[1]]
+            def go(i, acc, env):
+                if i == len(args):
+                    v = self.fresh("v")
+                    return "let* %s := %s %s in\n  %s" % (v, cname, " ".join(acc), k(v, rty, env))
+                return self.expr(args[i], env, lambda a, t, env: go(i + 1, acc + [a], env))
+            return go(0, [], env)
         if f[0] == "path" and f[1] == ["MotionVector", "zero"] and not args:
             return k("mv_zero", "MotionVector", env)
         if f[0] == "path" and f[1] == ["Vec", "new"] and not args:
@@ -879,6 +892,8 @@ class PEmitter:
                 t = resolve(t)
                 if t == ("tup", ("HalfPel", "HalfPel")):
                     return k(a, "MotionVector", env)
+                if t == "MotionVector":
+                    return k(a, ("tup", ("HalfPel", "HalfPel")), env)
                 raise Untranslatable(".into() on %r" % (t,))
             return self.expr(recv, env, into)
         if name == "map" and len(args) == 1 and args[0][0] == "closure" and len(args[0][1]) == 1 and args[0][1][0][0] == "pid":
@@ -910,6 +925,10 @@ class PEmitter:
                 return k("(dceil %s)" % a, "f64", env)
             if isinstance(t, str) and (t, name) in ENUM_METHODS and not args:
                 return k("(%s %s)" % (ENUM_METHODS[(t, name)], a), "bool", env)
+            if t == "HalfPel" and name == "is_mv_within_range" and len(args) == 1:
+                return self.expr(args[0], env, lambda b, tb, env: k("(is_mv_within_range %s %s)" % (a, b), "bool", env))
+            if t == "HalfPel" and name == "invert" and not args:
+                return k("(invert %s)" % a, "HalfPel", env)
             if t == "PictureMap" and name == "get" and len(args) == 1:
                 return self.expr(args[0], env, lambda kk, tk, env: k("(pm_get %s %s)" % (a, kk), ("opt", "DecodedPicture"), env))
             if t == "DecodedPicture" and name == "as_header" and not args:
@@ -956,6 +975,10 @@ class PEmitter:
                 arms = " | ".join(ENUMS[p[1][0]][p[1][1]] for p in alts)
                 return k("(match %s with %s => true | _ => false end)" % (a, arms), "bool", env)
             return self.expr(subject, env, after)
+        if guard is None and pat[0] == "pctor" and pat[1] == ["Some"] and len(pat[2]) == 1 and pat[2][0][0] == "ppath" \
+                and len(pat[2][0][1]) == 2 and pat[2][0][1][0] in ENUMS:
+            en, va = pat[2][0][1]
+            return self.expr(subject, env, lambda a, t, env: k("(match %s with Some %s => true | _ => false end)" % (a, ENUMS[en][va]), "bool", env))
         # matches!((&a, &b), (Some(x), Some(y)) if x != y)  on two optional formats
         while subject[0] == "paren":
             subject = subject[1]
@@ -1406,15 +1429,54 @@ class PEmitter:
         if pat[0] == "plit":
             return "(%s =? %s)" % (scrut, zlit(pat[1]))
         if pat[0] == "prange":
-            return "((%s <=? %s) && (%s <=? %s))" % (zlit(pat[1]), scrut, scrut, zlit(pat[2]))
+            hi = pat[2]
+            if isinstance(hi, tuple) and hi[0] == "path" and len(hi[1]) == 2 and hi[1][0] in INTS and hi[1][1] == "MAX":
+                hi = INTS[hi[1][0]][1]
+            return "((%s <=? %s) && (%s <=? %s))" % (zlit(pat[1]), scrut, scrut, zlit(hi))
         if pat[0] == "por":
             return "(" + " || ".join(self.pat_cond(p, scrut) for p in pat[1]) + ")"
         raise Untranslatable("pattern %r" % (pat,))
+
+    def match_opt_pair(self, a, t, arms, env, k, want):
+        """match on an Option<(int, int)> whose arms are `Some((range-or-wildcard, range-or-wildcard))` and a final `_`,
+        all with pure values: a conditional chain over the two components"""
+        x, y = self.fresh("w"), self.fresh("h")
+        def cond(p, v):
+            return "true" if p[0] == "pwild" else self.pat_cond(p, v)
+        chain, h = [], {}
+        for p, g, b in arms:
+            if g is not None:
+                raise Untranslatable("guard")
+            def cap(a2, t2, env2):
+                h["t"] = self.merge(h.get("t"), t2)
+                return a2
+            val = self.expr(b, env, cap, want if want is not None else h.get("t"))
+            if "\n" in val:
+                raise Untranslatable("effects inside an arm")
+            if p[0] == "pwild":
+                chain.append((None, val))
+            elif p[0] == "pctor" and p[1] == ["Some"] and len(p[2]) == 1 and p[2][0][0] == "ptuple" and len(p[2][0][1]) == 2:
+                c1, c2 = cond(p[2][0][1][0], x), cond(p[2][0][1][1], y)
+                c = c1 if c2 == "true" else (c2 if c1 == "true" else "(%s && %s)" % (c1, c2))
+                chain.append((c, val))
+            else:
+                raise Untranslatable("pattern %r" % (p,))
+        if not chain or chain[-1][0] is not None:
+            raise Untranslatable("no catch-all arm")
+        dflt = chain[-1][1]
+        body = dflt
+        for c, val in reversed(chain[:-1]):
+            body = "(if %s then %s else %s)" % (c, val, body)
+        return k("(match %s with Some (%s, %s) => %s | None => %s end)" % (a, x, y, body, dflt), h["t"], env)
 
     def match_expr(self, e, env, k, want):
         scrut, arms = e[1], e[2]
         def on_scrut(a, t, env):
             t = resolve(t)
+            if isinstance(t, tuple) and t[0] == "opt" and isinstance(resolve(t[1]), tuple) and resolve(t[1])[0] == "tup" \
+                    and all(is_int(resolve(c)) for c in resolve(t[1])[1]) \
+                    and any(p[0] == "pctor" and p[2] and p[2][0][0] == "ptuple" and all(q[0] in ("prange", "pwild", "plit") for q in p[2][0][1]) for p, _, _ in arms):
+                return self.match_opt_pair(a, t, arms, env, k, want)
             if isinstance(t, tuple) and t[0] == "opt":
                 return self.match_option(a, t, arms, env, k, want)
             if isinstance(t, str) and t in ENUMS:
@@ -1987,7 +2049,7 @@ def gen_pure(repo, status, write):
     body = ("(* GENERATED by tools/rs2v.py (rs2v_parser) from %s -- do not edit. *)\n"
             "From H263V Require Import base.Prelude base.Checked model.Types model.Tables model.Reader model.Header model.Syntax model.Recon.\n"
             "Create HintDb pgenmv.\n\n" % rel)
-    functions = ["predict_candidate"]
+    functions = ["predict_candidate", "halfpel_decode", "mv_decode"]
     try:
         src = Source(repo, rel)
         defs = Defs(repo)
@@ -1996,10 +2058,23 @@ def gen_pure(repo, status, write):
             status["parser.p_" + f] = "untranslatable: %s" % e
         write(fname, body)
         return
+    # constants of impl HalfPel: `pub const NAME: Self = Self(N);`
+    hp = {}
+    try:
+        tt = Source(repo, "h263/src/types.rs").toks
+        for i in range(len(tt) - 9):
+            if tt[i] == ("id", "const") and tt[i + 2] == ("op", ":") and tt[i + 3] == ("id", "Self") and tt[i + 4] == ("op", "=") \
+                    and tt[i + 5] == ("id", "Self") and tt[i + 6] == ("op", "(") and tt[i + 7][0] == "num" and tt[i + 8] == ("op", ")"):
+                hp[tt[i + 1][1]] = parse_int(tt[i + 7][1])
+    except Untranslatable:
+        pass
+    PEmitter.halfpel_consts = hp
+    known_pure = {}
     for f in functions:
         key = "parser.p_" + f
         try:
-            text, sig = translate_pure_fn(src, defs, f, "p_" + f, {}, {})
+            text, sig = translate_pure_fn(src, defs, f, "p_" + f, known_pure, {})
+            known_pure[f] = sig
             body += text.replace(": pgen.", ": pgenmv.") + "\n"
             status[key] = "ok"
         except Untranslatable as e:
